@@ -342,6 +342,24 @@ func c02Random(r *rt.Rand, depth int) *gen.Node {
 func (k c02) Run(c *rt.Ctx) {
 	d1cases := (c02D1() + c02Block - 1) / c02Block
 	idx := c.Case
+	if idx == 0 {
+		// a fixed family, not left to the sampled depth-2 trees (C02-u was reached by a draw and lost
+		// when wave 14 added atoms): a prefix joined with the union of an equality and a one-sided
+		// range, over literals that include the empty one, in both orders
+		K := gen.Key
+		for _, p := range []string{"", "a", "ab"} {
+			for _, e := range []string{"", "a", "ab", "b"} {
+				for _, op := range []string{">", ">=", "<", "<="} {
+					for _, l := range []string{"", "a", "ab", "b"} {
+						u := gen.Or(gen.Bin("=", K(), gen.Str(e)), gen.Bin(op, K(), gen.Str(l)))
+						k.judgeTree(c, gen.And(gen.Bin("^=", K(), gen.Str(p)), u), false)
+						k.judgeTree(c, gen.And(gen.Or(gen.Bin(op, K(), gen.Str(l)), gen.Bin("=", K(), gen.Str(e))), gen.Bin("^=", K(), gen.Str(p))), false)
+						c.Rec.Inc("prefix_with_union_of_equality_and_range")
+					}
+				}
+			}
+		}
+	}
 	if idx < d1cases {
 		for i := idx * c02Block; i < (idx+1)*c02Block && i < c02D1(); i++ {
 			t, _ := c02Tree(i, c.R, c.Tier)
